@@ -20,7 +20,7 @@ from harness.project import to_grid
 QUERIES = ["unit_cell_atoms", "slab", "unit_cell_connectivity", "unit_cell_molecules", "symmetry_unique_molecules",
            "atoms_in_radius", "atomic_surroundings", "molecule_environments", "density", "to_cif_string",
            "to_shelx_string", "to_poscar_string", "as_P1", "cartesian_symmetry_operations", "as_P1_supercell",
-           "to_translational_symmetry", "molecular_shell"]
+           "to_translational_symmetry", "molecular_shell", "symmetry_unique_dimers"]
 CORE = ["unit_cell_atoms", "unit_cell_connectivity", "unit_cell_molecules", "symmetry_unique_molecules",
         "molecule_environments", "density", "to_cif_string", "to_shelx_string"]
 
@@ -156,6 +156,7 @@ def structure_recipes(seed):
 
 def make_object(rec):
     from chmpy.crystal import Crystal
+    xtal.other_structures_loaded_earlier()
     cr = xtal.build_crystal(rec)
     if rec["via"] == "cif":
         cr = Crystal.from_cif_string(cr.to_cif_string())
@@ -251,6 +252,17 @@ def canon(q, cr, nf, u):
         return _crystal_summary(cr.to_translational_symmetry(supercell=(1, 2, 1)), 2 * nf, u)
     if q == "molecular_shell":
         return sorted(sorted(zip(_g(cr, m.positions, nf), map(int, m.atomic_numbers))) for m in cr.molecular_shell(mol_idx=0, radius=3.5))
+    if q == "symmetry_unique_dimers":
+        # geometry AND the crystallographic description of each dimer (lattice shift, generating operations) in the setting
+        # the crystal is in now
+        uniq, per = cr.symmetry_unique_dimers(radius=3.5)
+        def _d(d):
+            return [sorted(zip(_g(cr, d.a.positions, nf), map(int, d.a.atomic_numbers))),
+                    sorted(zip(_g(cr, d.b.positions, nf), map(int, d.b.atomic_numbers))),
+                    [int(round(float(x))) for x in np.asarray(d.frac_shift).ravel()] if d.frac_shift is not None else [],
+                    int(d.a.properties["generator_symop"][0]) if "generator_symop" in d.a.properties else -1,
+                    int(d.b.properties["generator_symop"][0]) if "generator_symop" in d.b.properties else -1]
+        return [sorted(_d(d) for d in uniq), [sorted((int(k), _d(d)) for k, d in lst) for lst in per]]
     if q == "cartesian_symmetry_operations":
         return sorted([[round(float(x), 6) + 0.0 for x in np.asarray(r).ravel()], [round(float(x), 6) + 0.0 for x in t]]
                       for r, t in cr.cartesian_symmetry_operations())
@@ -416,6 +428,17 @@ def run(ctx, explain=False):
                 # a misspelt request somewhere before the end of the history
                 w.insert((j // 3) % len(w), "1:x:" + ("r", "hex", "h", "")[(j // 3) % 4])
             jobs.append({"rec": rec, "word": w})
+    # "ask - change the setting - ask again" (and the same on a copy taken before the change) for every query of the
+    # alphabet: the shortest history on which an answer kept from before the change can surface
+    for rec in recs:
+        if rec.get("noswitch"):
+            continue
+        other = "R" if rec["choice"] == "H" else "H"
+        for q in QUERIES:
+            jobs.append({"rec": rec, "word": ["1:q:" + q, "1:s:" + other, "1:q:" + q], "src": "ask-change-ask"})
+            if q not in CORE:
+                jobs.append({"rec": rec, "word": ["1:q:" + q, "c:1:2", "2:s:" + other, "2:q:" + q, "1:q:" + q, "2:s:" + rec["choice"], "2:q:" + q],
+                             "src": "ask-change-ask"})
     # longer random histories
     rng = ctx.rng
     alphabet1 = ["1:q:" + q for q in QUERIES] + ["1:s:H", "1:s:R"]
